@@ -33,6 +33,25 @@ static bool gen_run(Rng &r, Case &c, std::vector<av_t> &out, char forced = 0, co
             // steps that do not fit 32 bits
             if(r.chance(0.15)) { static const int64_t D[] = {2147483648ll, 3000000000ll, 4294967296ll, 4294967297ll, 8589934593ll, 1099511627776ll}; d.val.h = D[r.below(6)] * (r.chance(0.5) ? 1 : -1); if(r.chance(0.5)) s.val.h = 0; c.tags.push_back("large_step"); count("gen.large_step_64bit"); }
         }
+        // progressions whose span (last - first, last - second) sits on the edge of the type's range without any step wrapping
+        if(!from && !unit && t != 'c' && n >= 5 && r.chance(0.12)) {
+            double full = t == 'i' ? 4294967296.0 : 18446744073709551616.0;
+            static const double FR[] = {0.5, 0.5, 0.51, 0.49, 0.75, 0.99, 1.0, 0.34, 0.26};
+            double span = full * FR[r.below(9)];
+            double step = span / (n - 1);
+            bool down = r.chance(0.5);
+            if(t == 'i') { d.val.i = (int32_t)(down ? -step : step) + (int32_t)r.range(-2, 2); s.val.i = r.chance(0.5) ? (down ? INT_MAX : INT_MIN) + (int32_t)(down ? -r.range(0, 3) : r.range(0, 3)) : (int32_t)((down ? 1 : -1) * span / 2); }
+            else { d.val.h = (int64_t)(down ? -step : step) + r.range(-2, 2); s.val.h = r.chance(0.5) ? (down ? LLONG_MAX - r.range(0, 3) : LLONG_MIN + r.range(0, 3)) : (int64_t)((down ? 1 : -1) * (span / 2)); }
+            // keep only the prefix that does not wrap
+            int keep = 0;
+            for(int i = 0; i < n; ++i) {
+                if(t == 'i') { int64_t v = (int64_t)s.val.i + (int64_t)i * d.val.i; if(v > INT_MAX || v < INT_MIN) break; }
+                else { __int128 v = (__int128)s.val.h + (__int128)i * d.val.h; if(v > LLONG_MAX || v < LLONG_MIN) break; }
+                ++keep;
+            }
+            n = keep;
+            c.tags.push_back("span_at_type_range"); count("gen.span_at_type_range");
+        }
         if(from) s = *from;
         if(unit) { if(t == 'h') d.val.h = r.chance(0.5) ? 1 : -1; else d.val.i = (t == 'c' || r.chance(0.5)) ? 1 : -1; if(t == 'c' && s.val.i > 0x70) s.val.i = 0x41; }
         for(int i = 0; i < n; ++i) { av_t v; av::step_value(s, d, i, v); if(t == 'c' && (v.val.i < 0x20 || v.val.i > 0x7e)) break; out.push_back(v); }
